@@ -124,6 +124,21 @@ func (sr *StyleResolver) Resolve(styleID string) *ResolvedStyle {
 
 	// Detect heading
 	resolved.IsHeading, resolved.HeadingLevel = sr.detectHeading(styleDef, resolved)
+	if !resolved.IsHeading {
+		// A style based on a heading style is a heading of that level: the
+		// nearest ancestor that marks a heading decides
+		for i := len(chain) - 2; i >= 0; i-- {
+			if def, ok := sr.styles[chain[i]]; ok {
+				if isHeading, level := sr.detectHeading(def, &ResolvedStyle{}); isHeading {
+					resolved.IsHeading, resolved.HeadingLevel = true, level
+					break
+				}
+			} else if isHeading, level := detectBuiltInHeading(chain[i]); isHeading {
+				resolved.IsHeading, resolved.HeadingLevel = true, level
+				break
+			}
+		}
+	}
 
 	// Cache and return
 	sr.resolved[styleID] = resolved
